@@ -55,6 +55,7 @@ def session_messages(remote_as=65002, local_as=65001, holds=(90,), full=True):
         m['NOTIF_SHORT'] = wire.frame(wire.NOTIFICATION, b'\x06')
         # OPEN errors beyond version / AS / hold time
         m['OPEN_BADID'] = wire.open_msg(remote_as, 90, 0, caps)
+        m['OPEN_BADCAP'] = wire.open_msg(remote_as, 90, PEER_ID, [wire.cap(wire.CAP_MP, b''), wire.cap(wire.CAP_RR)])
         m['OPEN_AUTHPARAM'] = wire.frame(wire.OPEN, wire.open_body(remote_as if remote_as < 65536 else 23456, 90, PEER_ID,
                                                                   b'\x01\x02\x00\x00'))
     return m
@@ -70,5 +71,5 @@ def classify(name):
              'OPEN_H1': ('OPEN_HOLD',), 'OPEN_H2': ('OPEN_HOLD',), 'BAD_MARKER': ('HDR', 1),
              'BAD_LEN18': ('HDR', 2), 'BAD_LEN4097': ('HDR', 2), 'BAD_LEN0': ('HDR', 2),
              'BAD_TYPE': ('HDR', 3), 'OPEN_SHORT': ('HDR', 2), 'KA_LONG': ('HDR', 2), 'UPD_SHORT': ('HDR', 2),
-             'NOTIF_SHORT': ('HDR', 2), 'OPEN_BADID': ('OPEN_ID',), 'OPEN_AUTHPARAM': ('OPEN_OPTPARAM',)}
+             'NOTIF_SHORT': ('HDR', 2), 'OPEN_BADID': ('OPEN_ID',), 'OPEN_AUTHPARAM': ('OPEN_OPTPARAM',), 'OPEN_BADCAP': ('OPEN_MALFORMED',)}
     return table[name]
